@@ -568,6 +568,13 @@ class World:
                 self.flag({"C03"}, "negative-free-ram", f"tick {self.tick} pool {p.pool_id}: {p.avail_ram_pool}")
             if len({id(c) for c in live}) != len(live):
                 self.flag({"C03", "C09"}, "container-listed-twice", f"pool {p.pool_id}")
+            # an allocation is handed back (and the result delivered) in the very tick the container ends: a container
+            # still listed as running at a tick boundary has an operator that is running or waiting its turn
+            for c in p.active_containers:
+                sts = [op.state().value for op in c.operators]
+                if sts and (any(x == F for x in sts) or all(x == C for x in sts)):
+                    self.flag({"C03", "C09"}, "allocation-held-after-end", f"tick {self.tick} pool {p.pool_id}: {c.container_id} is still listed as running and holds "
+                              f"{c.assignment.cpu} CPU / {c.assignment.ram} GB although its operators are {sts}")
             # C04 limits and truthful usage
             use = 0.0
             for c in p.active_containers:
